@@ -343,7 +343,7 @@ def _plans(tier, rng):
                     {"trees": "all", "sizes12": None, "sizes23": 2, "opts": "full"}, "all 3108 networks"))
         out.append(("Net(3,3,2) x all trees x all sizes{1,2} x FULL option cross product",
                     ge2(scope.networks(3, 3, 2)), True,
-                    {"trees": "all", "sizes12": None, "sizes23": 1, "opts": "full"}, "all 4106 networks; 150 option combinations"))
+                    {"trees": "all", "sizes12": 4, "sizes23": 1, "opts": "full"}, "all 4106 networks; all 3 trees; all-2 + <=3 more {1,2} assignments + one {2,3}; 150 option combinations"))
         out.append(("Net(3,3,3) x all trees x rotated options", ge2(scope.networks(3, 3, 3)), True,
                     {"trees": "all", "sizes12": 2, "sizes23": 1, "opts": 3}, "all 152423 networks; all 3 trees"))
         out.append(("Net(4,3,2) x all trees x rotated options", ge2(scope.networks(4, 3, 2)), True,
@@ -360,7 +360,7 @@ def _plans(tier, rng):
 def run_bounded(rep: Report, tier: str) -> None:
     global _DEADLINE
     rng = random.Random(f"{seed()}|C01|plans")
-    _DEADLINE = deadline(tier, 75, 25 * 60)
+    _DEADLINE = deadline(tier, 150, 25 * 60)  # safety net only: the quick workload is sized for ~25 s on 16 idle cores
     rep.rule = (
         "case = (network, binary tree, size assignment, option tuple (sort priority, traversal order, prefer_einsum, "
         "implementation)); one evaluation = one real tree.contract on polynomial arrays compared with the dense reference. "
@@ -376,11 +376,12 @@ def run_bounded(rep: Report, tier: str) -> None:
         meta[name] = {"nets": len(nets), "exh": exh, "bound": bound, "done": 0, "cases": 0, "evals": 0, "skipped": 0}
         for idx, (i, o) in enumerate(nets):
             items.append((name, idx, i, o, plan))
-    # interleave the scopes so that a deadline cuts all of them proportionally late:
-    # keep order (complete scopes first) - they are the cheap ones.
+    if tier == "quick":
+        items.reverse()  # large-network scopes first, the many cheap ones fill the tail (load balance);
+        # in thorough the complete small scopes stay first so that a time limit can only cut the big ones
     viols = []
     nsamples = 0
-    for status, r in pmap(_work, items, chunk=16):
+    for status, r in pmap(_work, items, chunk=8):
         if status == "crash":
             rep.crash("C01 worker: " + r[:1500])
             continue
